@@ -98,6 +98,80 @@ fn reader_fault_at_every_byte_is_attributed_to_the_reader() {
 	assert!(bad.is_empty(), "{} violations, first: {:?}", bad.len(), &bad[..bad.len().min(3)]);
 }
 
+/// A reader fault at ANY offset of a multi-document stream - in particular exactly between two
+/// documents and at the very end - is an error, and the documents delivered before it are, in order,
+/// documents of the fault-free output.
+#[test]
+fn reader_fault_in_a_multi_document_stream_is_an_error() {
+	let mut bad = vec![];
+	let json = br#"{"a":1} [2,3] "x" {"b":null}"#.to_vec();
+	let yaml = b"a: 1\n---\n- 2\n- 3\n---\nx\n".to_vec();
+	let msgpack = vec![0x81, 0xa1, 0x61, 0x01, 0x92, 0x02, 0x03, 0xa1, 0x78, 0x81, 0xa1, 0x62, 0xc0];
+	for (from, data) in [(Format::Json, json), (Format::Yaml, yaml), (Format::Msgpack, msgpack)] {
+		let mut full = Vec::new();
+		xt::translate_reader(&data[..], Some(from), Format::Json, &mut full).unwrap();
+		let full = String::from_utf8(full).unwrap();
+		for k in 0..=data.len() {
+			let mut out = Vec::new();
+			let r = xt::translate_reader(FailRead { data: &data, pos: 0, fail_at: k }, Some(from), Format::Json, &mut out);
+			let out = String::from_utf8_lossy(&out).to_string();
+			match r {
+				Ok(()) => bad.push(format!("{from}: reader failing after {k} of {} bytes reported success (output {out:?})", data.len())),
+				Err(e) => {
+					if !e.to_string().contains("cable unplugged") {
+						bad.push(format!("{from}: reader failing after {k} bytes: cause lost: {:?}", e.to_string()));
+					}
+				}
+			}
+			let complete: String = out.split_inclusive('\n').filter(|l| l.ends_with('\n')).collect();
+			if !full.starts_with(&complete) {
+				bad.push(format!("{from}: documents delivered before the fault at {k} are not a prefix of the fault-free output: {out:?}"));
+			}
+		}
+	}
+	assert!(bad.is_empty(), "{} violations, first: {:?}", bad.len(), &bad[..bad.len().min(3)]);
+}
+
+/// UTF-16/32 YAML (with and without BOM) delivered in reads of 1, 2, 3 and 5 bytes translates like the
+/// same bytes from a slice: encoding detection must see four bytes however the source chunks them.
+#[test]
+fn utf16_32_yaml_in_tiny_reads_equals_slice() {
+	struct Tiny<'a>(&'a [u8], usize);
+	impl<'a> Read for Tiny<'a> {
+		fn read(&mut self, b: &mut [u8]) -> io::Result<usize> {
+			let n = self.1.min(self.0.len()).min(b.len());
+			b[..n].copy_from_slice(&self.0[..n]);
+			self.0 = &self.0[n..];
+			Ok(n)
+		}
+	}
+	let text = "k: \u{e9}\u{1F600}v\n";
+	let mut encodings: Vec<(String, Vec<u8>)> = vec![];
+	for bom in [false, true] {
+		let t: String = if bom { format!("\u{FEFF}{text}") } else { text.to_string() };
+		encodings.push((format!("utf16le bom={bom}"), t.encode_utf16().flat_map(|u| u.to_le_bytes()).collect()));
+		encodings.push((format!("utf16be bom={bom}"), t.encode_utf16().flat_map(|u| u.to_be_bytes()).collect()));
+		encodings.push((format!("utf32le bom={bom}"), t.chars().flat_map(|c| (c as u32).to_le_bytes()).collect()));
+		encodings.push((format!("utf32be bom={bom}"), t.chars().flat_map(|c| (c as u32).to_be_bytes()).collect()));
+	}
+	let mut want = Vec::new();
+	xt::translate_slice(text.as_bytes(), Some(Format::Yaml), Format::Json, &mut want).unwrap();
+	let mut bad = vec![];
+	for (name, bytes) in &encodings {
+		for chunk in [1usize, 2, 3, 5, 4096] {
+			for (how, from) in [("-f yaml", Some(Format::Yaml)), ("detected", None)] {
+				let mut out = Vec::new();
+				match xt::translate_reader(Tiny(bytes, chunk), from, Format::Json, &mut out) {
+					Ok(()) if out == want => {}
+					Ok(()) => bad.push(format!("{name}, reads of {chunk}, {how}: wrong output {:?}", String::from_utf8_lossy(&out))),
+					Err(e) => bad.push(format!("{name}, reads of {chunk}, {how}: {e}")),
+				}
+			}
+		}
+	}
+	assert!(bad.is_empty(), "{} violations, first: {:?}", bad.len(), &bad[..bad.len().min(3)]);
+}
+
 #[test]
 fn syntax_error_at_every_position_keeps_the_parser_message() {
 	let mut bad = vec![];
